@@ -28,7 +28,9 @@ def _cards(fns_i, nf, pto, has_ptodis, ptodis_none, ptodis, has_parts, parts_non
     if has_qed:
         th["QED"] = qed
     kin = [{"x": 0.1, "Q2": 10.0}]
-    ob = {"TargetDIS": {"Z": 26.0, "A": 56.0} if tgt_dict else TARGETS[tgt_i], "observables": {"F2_total": kin},
+    # observables in every admissible spelling: full name, bare kind (= kind_total), a cross section
+    ob = {"TargetDIS": {"Z": 26.0, "A": 56.0} if tgt_dict else TARGETS[tgt_i],
+          "observables": {"F2_total": kin, "FL": [{"x": 0.2, "Q2": 5.0}], "XSHERANC": [{"x": 0.2, "Q2": 5.0, "y": 0.5}]},
           "interpolation_xgrid": [0.1, 1.0]}
     return th, ob
 
